@@ -3,6 +3,7 @@ import ast
 
 from .. import bits as B_
 from ..astutil import aug_form, dotted, handler_names, method_call, stores
+from ..symexec import paths_of
 from ..cfg import cfg_of, fact_key, norm, walk_own
 from ..consteval import Scope, fold, fold_in
 from ..model import AnchorError
@@ -226,46 +227,27 @@ def check(ctx):
     ctx.inst('R9', sp, 'false-only-on-full', okf, 'False is returned only from the queue.Full handler, which reports the link error')
     ctx.inst('R9', sp, 'put-blocks-bounded', bool(put) and [norm(a) for a in put[0][1].args] == [sp.params[1], 'True', '2'], 'put(pk, block, 2 s)')
     rp = Dr.method('receive_packet')
-    retn = [s.value for s in walk_own(rp.node) if isinstance(s, ast.Return)]
-    rets = {norm(v) if v is not None else 'None' for v in retn}
-    grp = cfg_of(rp)
-    okr = bool(retn) and any(isinstance(v, ast.Call) for v in retn)
-    for v in retn:
+    # every returning path, with the locals that choose the arguments substituted (`block, timeout = True, None` / `*args`)
+    rps, _rx = paths_of(rp)
+    rets, forms, okr = set(), [], False
+    for p_ in rps:
+        if p_.outcome[0] != 'return':
+            continue
+        v = p_.returned()
+        rets.add(norm(v) if v is not None else 'None')
         if v is None or (isinstance(v, ast.Constant) and v.value is None):
             continue
         if not (isinstance(v, ast.Call) and norm(v.func) == 'self.in_queue.get' and not v.keywords):
-            okr = False
+            forms.append(['?'])
             continue
-        # argument lists (block, timeout): literal, or *args from a local that only ever holds such tuples
-        forms = []
-        if len(v.args) == 1 and isinstance(v.args[0], ast.Starred) and isinstance(v.args[0].value, ast.Name):
-            rn = [n for n in grp.nodes if n.kind == 'return' and n.ast.value is v]
-            for d in (grp.reaching_defs(rn[0], v.args[0].value.id) if rn else []):
-                forms.append([norm(e) for e in d.ast.value.elts] if isinstance(d.ast, ast.Assign) and isinstance(d.ast.value, ast.Tuple) else ['?'])
-        elif any(isinstance(a, ast.Name) and a.id not in rp.params for a in v.args):
-            # arguments chosen per branch (`block, timeout = True, None`): one form per reaching definition
-            rn = [n for n in grp.nodes if n.kind == 'return' and n.ast.value is v]
-            per = []
-            for a in v.args:
-                if isinstance(a, ast.Name) and a.id not in rp.params:
-                    vals = {}
-                    for d in (grp.reaching_defs(rn[0], a.id) if rn else []):
-                        dv = grp.def_value(d, a.id)
-                        vals[d.id] = norm(dv) if dv is not None else '?'
-                    per.append(vals or {None: '?'})
-                else:
-                    per.append({None: norm(a)})
-            keys = [set(p_) for p_ in per if None not in p_]
-            if keys and all(k == keys[0] for k in keys):
-                for did in sorted(keys[0]):
-                    forms.append([p_.get(did, p_.get(None)) for p_ in per])
+        args = []
+        for a_ in v.args:
+            if isinstance(a_, ast.Starred) and isinstance(a_.value, (ast.Tuple, ast.List)):
+                args.extend(norm(e) for e in a_.value.elts)
             else:
-                import itertools
-                forms.extend([list(c) for c in itertools.product(*[sorted(set(p_.values())) for p_ in per])])
-        else:
-            forms.append([norm(a) for a in v.args])
-        forms = [f[:-1] if len(f) == 2 and f[-1] == 'None' else f for f in forms]        # get(block, None) = get(block)
-        okr = okr and bool(forms) and all(f in (['False'], ['True'], ['True', rp.params[1]]) for f in forms)
+                args.append(norm(a_))
+        forms.append(args[:-1] if len(args) == 2 and args[-1] == 'None' else args)            # get(block, None) = get(block)
+    okr = bool(forms) and all(f in (['False'], ['True'], ['True', rp.params[1]]) or (len(f) == 2 and f[0] == 'False') for f in forms)
     ctx.inst('R9', rp, 'receive-returns-queue-items', okr,
              'receive_packet returns only items of the in queue or None; returns %s' % sorted(rets))
     inq = [(n, c) for n, c in g.find(lambda q: method_call(q, 'put') and 'in_queue' in norm(q.func.value)) if n.id in body]
